@@ -212,6 +212,10 @@ def stmt_shapes(res, opt_mod):
         "try:\n    r = t(0, a)\nexcept ValueError:\n    r = 1\nfinally:\n    2\nreturn r",
         "def inner():\n    return t(0, a)\n    t(1, b)\nreturn inner()",
         "def inner():\n    global g1\n    global g1\n    return t(0, a)\nreturn inner()",
+        "global g1\ng1 = t(0, a)\ndef inner():\n    global g1\n    g1 = t(1, b)\n    return g1\ninner()\nreturn g1",
+        "global g1\ng1 = t(0, a)\ndef inner():\n    global g1\n    global g1\n    def g1():\n        return t(1, b)\n    return g1\ninner()\nreturn g1 if not callable(g1) else g1()",
+        "def first():\n    global g2\n    g2 = t(0, a)\ndef second():\n    global g2\n    g2 = t(1, b)\nfirst()\nsecond()\nreturn g2",
+        "global g1\ndef outer():\n    def inner():\n        global g1\n        g1 = t(0, b)\n    inner()\ng1 = t(1, a)\nouter()\nreturn g1",
         "x = 1\nwhile x:\n    x = 0\n    t(0, a)\nelse:\n    return t(1, b)\n    t(2, a)\nreturn 5",
         "raise KeyError(t(0, a))\nt(1, b)",
     ]
